@@ -101,3 +101,13 @@ Proof.
   apply ty_of_inj in Ht. subst s.
   exact (TW.impl_assign_to e k root steps ks st Hu Hc Hus Ek Hts Hs).
 Qed.
+
+(* converse: what the implementation model types without error (uniform fragment), Static types the
+   same on the tree that carries the specification's types *)
+Theorem impl_to_static F G A e n :
+  ann_ok F G A = true -> erase G A = Some e -> TW.uniform e = true -> T.tc e = T.ONode n false ->
+  ety F G A = Some (ty_of (TP.erase (T.node_type n))).
+Proof.
+  intros Ha He Hu Hn. destruct (TW.tc_spec_agree e Hu n Hn) as (k & Hs).
+  exact (proj1 (spec_to_static F G A) Ha e k _ He Hs).
+Qed.
